@@ -8,6 +8,14 @@
 #define SPARSE_GHOSTS
 #include "../stubs/sparse.h"
 #include "../stubs/dense.h"
+/* the walks call chaseIndices through its CONTRACT, so SpIt_index() -- where sparse.h instantiates the sortedness of a row/column against the
+ * ghost position -- is not executed for the lagging iterator; the same ASSUMED type invariant is instantiated at operator bool() here */
+#undef SpIt_conv_bool
+#define SpIt_conv_bool(it) ({ \
+  if ((it)->m->gpos >= 0 && (it)->m_outer == (it)->m->gouter && 0 <= (it)->m_id && (it)->m_id < (it)->m_end && (it)->m_end <= (it)->m->nnz) { \
+    if ((it)->m_id < (it)->m->gpos) __CPROVER_assume((it)->m->inner[(it)->m_id] < (it)->m->inner[(it)->m->gpos]); \
+    if ((it)->m_id > (it)->m->gpos) __CPROVER_assume((it)->m->inner[(it)->m_id] > (it)->m->inner[(it)->m->gpos]); } \
+  (it)->m_id < (it)->m_end; })
 //@include types_common.inc
 //@type (Pomerol::)?RealVectorType|Eigen::Matrix<double, -1, 1(, 0)?(, -1, 1)?> => RealVector ptr
 //@type (Pomerol::)?TermList<(Pomerol::)?TwoParticleGFPart::NonResonantTerm> => TermListNR ptr
@@ -45,10 +53,12 @@ static _Bool ghost_push_event(unsigned long x);
   if (ghost_push_event(_x)) { (v)->gpos = (v)->size; (v)->gval = _x; } \
   (v)->size++; } while (0)
 unsigned long g_elem_bound;
+_Bool g_at_ghost;      /* the most recent Index4List[p4] read the ghost element */
+long g_expected;
 unsigned long nondet_ulong(void);
 #define VecUL_at(v, p) ({ long _p = (long)(p); unsigned long _r; \
   __CPROVER_assert(0 <= _p && _p < (v)->size, "C17: Index4List[p4] inside the list"); \
-  (v)->last_at = _p; \
+  (v)->last_at = _p; g_at_ghost = (_p == (v)->gpos); \
   if (_p == (v)->gpos) _r = (v)->gval; else { _r = nondet_ulong(); __CPROVER_assume(_r < g_elem_bound); } \
   (v)->scratch = _r; &(v)->scratch; })
 
@@ -62,6 +72,11 @@ unsigned long nondet_ulong(void);
 #define G_O2 (&g_self->O2.elementsColMajor)
 #define G_O3 (&g_self->O3.elementsRowMajor)
 #define G_X4 (&g_self->CX4.elementsColMajor)
+#define GI1 (M_O1->gouter)
+#define GI3 (M_O3->gouter)
+#define GHOST (M_O1->gpos >= 0)
+#define EXPECTED_HITS ((GHOST && D_GE(D_ADD(D_ADD(D_ADD(self->DMpart1.weights.data[GI1], self->DMpart2.weights.data[M_O1->inner[M_O1->gpos]]), self->DMpart3.weights.data[GI3]), \
+                        self->DMpart4.weights.data[M_O3->inner[M_O3->gpos]]), 1e-16)) ? 1 : 0)
 
 /* Eigen SparseMatrix::coeff(row,col): the stored value or 0 (TRUSTED: binary search in the outer vector).
  * Modelled as an opaque function of (matrix, outer, inner), equal to values[gpos] at the ghost element.
@@ -136,30 +151,38 @@ __CPROVER_requires(self->Hpart4.Eigenvalues.size == M_O3->innerSize && self->DMp
 __CPROVER_requires(self->Hpart1.Status >= Computed && self->Hpart2.Status >= Computed && self->Hpart3.Status >= Computed && self->Hpart4.Status >= Computed)
 __CPROVER_requires(D_SAME(self->CoefficientTolerance, 1e-16) && g_elem_bound == (unsigned long)M_X4->innerSize)
 __CPROVER_requires(g_hits == 0 && !VERIF_thrown)
-__CPROVER_requires(M_O1->gpos == -1 && M_O2->gpos == -1 && M_O3->gpos == -1 && M_X4->gpos == -1)
-__CPROVER_assigns(VERIF_thrown, g_hits, self->Status, self->NonResonantTerms.n_clear, self->ResonantTerms.n_clear,
+/* ghost stripe: ONE arbitrary stripe <1|O1|2><2|O2|3><3|O3|4><4|CX4|1> of stored elements (or none) */
+__CPROVER_requires((M_O1->gpos >= 0) == (M_O2->gpos >= 0) && (M_O1->gpos >= 0) == (M_O3->gpos >= 0) && (M_O1->gpos >= 0) == (M_X4->gpos >= 0))
+__CPROVER_requires(M_O1->gpos >= 0 ==> (M_O1->gouter == M_X4->gouter && M_O2->gouter == M_O3->gouter &&
+                                         M_O1->inner[M_O1->gpos] == M_O2->inner[M_O2->gpos] && M_O3->inner[M_O3->gpos] == M_X4->inner[M_X4->gpos]))
+__CPROVER_requires(g_expected == EXPECTED_HITS)
+__CPROVER_assigns(VERIF_thrown, g_hits, g_at_ghost, self->Status, self->NonResonantTerms.n_clear, self->ResonantTerms.n_clear,
    self->O1.elementsRowMajor.last_value_pos, self->O1.elementsRowMajor.last_value_outer, self->O1.elementsRowMajor.last_index_pos, self->O1.elementsRowMajor.last_ctor_outer,
    self->O2.elementsColMajor.last_value_pos, self->O2.elementsColMajor.last_value_outer, self->O2.elementsColMajor.last_index_pos, self->O2.elementsColMajor.last_ctor_outer,
    self->O3.elementsRowMajor.last_index_pos, self->O3.elementsRowMajor.last_ctor_outer, self->O3.elementsRowMajor.last_coeff_outer, self->O3.elementsRowMajor.last_coeff_inner,
    self->CX4.elementsColMajor.last_index_pos, self->CX4.elementsColMajor.last_ctor_outer, self->CX4.elementsColMajor.last_coeff_outer, self->CX4.elementsColMajor.last_coeff_inner)
 __CPROVER_ensures(!VERIF_thrown && self->Status == Computed)
+/* completeness + uniqueness: the ghost stripe contributes exactly one multi-term iff w1+w2+w3+w4 >= 1e-16 */
+__CPROVER_ensures(g_hits == g_expected)
 __CPROVER_ensures(self->NonResonantTerms.n_clear == __CPROVER_old(self->NonResonantTerms.n_clear) + 1 && self->ResonantTerms.n_clear == __CPROVER_old(self->ResonantTerms.n_clear) + 1)
 //@loop 1
-__CPROVER_assigns(index1, index3, g_hits, VERIF_thrown, __CPROVER_object_whole(&Index4List),
+__CPROVER_assigns(index1, index3, g_hits, g_at_ghost, VERIF_thrown, __CPROVER_object_whole(&Index4List),
    self->O1.elementsRowMajor.last_value_pos, self->O1.elementsRowMajor.last_value_outer, self->O1.elementsRowMajor.last_index_pos, self->O1.elementsRowMajor.last_ctor_outer,
    self->O2.elementsColMajor.last_value_pos, self->O2.elementsColMajor.last_value_outer, self->O2.elementsColMajor.last_index_pos, self->O2.elementsColMajor.last_ctor_outer,
    self->O3.elementsRowMajor.last_index_pos, self->O3.elementsRowMajor.last_ctor_outer, self->O3.elementsRowMajor.last_coeff_outer, self->O3.elementsRowMajor.last_coeff_inner,
    self->CX4.elementsColMajor.last_index_pos, self->CX4.elementsColMajor.last_ctor_outer, self->CX4.elementsColMajor.last_coeff_outer, self->CX4.elementsColMajor.last_coeff_inner)
 __CPROVER_loop_invariant(index1 <= index1Max && index1Max == (unsigned long)M_X4->outerSize && index3Max == (unsigned long)M_O2->outerSize)
 __CPROVER_loop_invariant(O1matrix == M_O1 && O2matrix == M_O2 && O3matrix == M_O3 && CX4matrix == M_X4 && !VERIF_thrown)
+__CPROVER_loop_invariant((!GHOST || index1 <= (unsigned long)GI1) ? g_hits == 0 : g_hits == g_expected)
 __CPROVER_decreases(index1Max - index1)
 //@loop 2
-__CPROVER_assigns(index3, g_hits, VERIF_thrown, __CPROVER_object_whole(&Index4List),
+__CPROVER_assigns(index3, g_hits, g_at_ghost, VERIF_thrown, __CPROVER_object_whole(&Index4List),
    self->O1.elementsRowMajor.last_value_pos, self->O1.elementsRowMajor.last_value_outer, self->O1.elementsRowMajor.last_index_pos, self->O1.elementsRowMajor.last_ctor_outer,
    self->O2.elementsColMajor.last_value_pos, self->O2.elementsColMajor.last_value_outer, self->O2.elementsColMajor.last_index_pos, self->O2.elementsColMajor.last_ctor_outer,
    self->O3.elementsRowMajor.last_index_pos, self->O3.elementsRowMajor.last_ctor_outer, self->O3.elementsRowMajor.last_coeff_outer, self->O3.elementsRowMajor.last_coeff_inner,
    self->CX4.elementsColMajor.last_index_pos, self->CX4.elementsColMajor.last_ctor_outer, self->CX4.elementsColMajor.last_coeff_outer, self->CX4.elementsColMajor.last_coeff_inner)
 __CPROVER_loop_invariant(index3 <= index3Max && index1 < index1Max && !VERIF_thrown)
+__CPROVER_loop_invariant((GHOST && index1 == (unsigned long)GI1) ? (index3 <= (unsigned long)GI3 ? g_hits == 0 : g_hits == g_expected) : g_hits == __CPROVER_loop_entry(g_hits))
 __CPROVER_decreases(index3Max - index3)
 //@loop 3
 __CPROVER_assigns(index4bra_iter.m_id, index4ket_iter.m_id, __CPROVER_object_whole(&Index4List),
@@ -167,10 +190,14 @@ __CPROVER_assigns(index4bra_iter.m_id, index4ket_iter.m_id, __CPROVER_object_who
 __CPROVER_loop_invariant(index4bra_iter.m == M_X4 && index4ket_iter.m == M_O3 && index4bra_iter.m_outer == (long)index1 && index4ket_iter.m_outer == (long)index3)
 __CPROVER_loop_invariant(0 <= index4bra_iter.m_id && __CPROVER_loop_entry(index4bra_iter.m_id) <= index4bra_iter.m_id && index4bra_iter.m_id <= index4bra_iter.m_end && index4bra_iter.m_end <= M_X4->nnz)
 __CPROVER_loop_invariant(0 <= index4ket_iter.m_id && __CPROVER_loop_entry(index4ket_iter.m_id) <= index4ket_iter.m_id && index4ket_iter.m_id <= index4ket_iter.m_end && index4ket_iter.m_end <= M_O3->nnz)
-__CPROVER_loop_invariant(0 <= Index4List.size && Index4List.size <= index4bra_iter.m_id - __CPROVER_loop_entry(index4bra_iter.m_id) && Index4List.gpos == -1)
+__CPROVER_loop_invariant(0 <= Index4List.size && Index4List.size <= index4bra_iter.m_id - __CPROVER_loop_entry(index4bra_iter.m_id) && Index4List.gpos < Index4List.size)
+__CPROVER_loop_invariant((GHOST && index1 == (unsigned long)GI1 && index3 == (unsigned long)GI3)
+   ? ((Index4List.gpos == -1 && index4bra_iter.m_id <= M_X4->gpos && index4ket_iter.m_id <= M_O3->gpos) ||
+      (Index4List.gpos >= 0 && Index4List.gval == (unsigned long)M_X4->inner[M_X4->gpos] && index4bra_iter.m_id > M_X4->gpos && index4ket_iter.m_id > M_O3->gpos))
+   : Index4List.gpos == -1)
 __CPROVER_decreases((index4bra_iter.m_end - index4bra_iter.m_id) + (index4ket_iter.m_end - index4ket_iter.m_id))
 //@loop 4
-__CPROVER_assigns(index2bra_iter.m_id, index2ket_iter.m_id, g_hits, VERIF_thrown, Index4List.last_at, Index4List.scratch,
+__CPROVER_assigns(index2bra_iter.m_id, index2ket_iter.m_id, g_hits, g_at_ghost, VERIF_thrown, Index4List.last_at, Index4List.scratch,
    self->O1.elementsRowMajor.last_value_pos, self->O1.elementsRowMajor.last_value_outer, self->O1.elementsRowMajor.last_index_pos,
    self->O2.elementsColMajor.last_value_pos, self->O2.elementsColMajor.last_value_outer,
    self->O3.elementsRowMajor.last_coeff_outer, self->O3.elementsRowMajor.last_coeff_inner,
@@ -178,15 +205,22 @@ __CPROVER_assigns(index2bra_iter.m_id, index2ket_iter.m_id, g_hits, VERIF_thrown
 __CPROVER_loop_invariant(index2bra_iter.m == M_O2 && index2ket_iter.m == M_O1 && index2bra_iter.m_outer == (long)index3 && index2ket_iter.m_outer == (long)index1)
 __CPROVER_loop_invariant(0 <= index2bra_iter.m_id && __CPROVER_loop_entry(index2bra_iter.m_id) <= index2bra_iter.m_id && index2bra_iter.m_id <= index2bra_iter.m_end && index2bra_iter.m_end <= M_O2->nnz)
 __CPROVER_loop_invariant(0 <= index2ket_iter.m_id && __CPROVER_loop_entry(index2ket_iter.m_id) <= index2ket_iter.m_id && index2ket_iter.m_id <= index2ket_iter.m_end && index2ket_iter.m_end <= M_O1->nnz)
-__CPROVER_loop_invariant(!VERIF_thrown && Index4List.gpos == -1)
+__CPROVER_loop_invariant(!VERIF_thrown)
+__CPROVER_loop_invariant((GHOST && index1 == (unsigned long)GI1 && index3 == (unsigned long)GI3)
+   ? ((g_hits == 0 && index2bra_iter.m_id <= M_O2->gpos && index2ket_iter.m_id <= M_O1->gpos) ||
+      (g_hits == g_expected && index2bra_iter.m_id > M_O2->gpos && index2ket_iter.m_id > M_O1->gpos))
+   : g_hits == __CPROVER_loop_entry(g_hits))
 __CPROVER_decreases((index2bra_iter.m_end - index2bra_iter.m_id) + (index2ket_iter.m_end - index2ket_iter.m_id))
 //@loop 5
-__CPROVER_assigns(p4, g_hits, VERIF_thrown, Index4List.last_at, Index4List.scratch,
+__CPROVER_assigns(p4, g_hits, g_at_ghost, VERIF_thrown, Index4List.last_at, Index4List.scratch,
    self->O1.elementsRowMajor.last_value_pos, self->O1.elementsRowMajor.last_value_outer,
    self->O2.elementsColMajor.last_value_pos, self->O2.elementsColMajor.last_value_outer,
    self->O3.elementsRowMajor.last_coeff_outer, self->O3.elementsRowMajor.last_coeff_inner,
    self->CX4.elementsColMajor.last_coeff_outer, self->CX4.elementsColMajor.last_coeff_inner)
-__CPROVER_loop_invariant(p4 <= (unsigned long)Index4List.size && !VERIF_thrown && Index4List.gpos == -1)
+__CPROVER_loop_invariant(p4 <= (unsigned long)Index4List.size && !VERIF_thrown)
+__CPROVER_loop_invariant((GHOST && index1 == (unsigned long)GI1 && index3 == (unsigned long)GI3 && index2ket_iter.m_id == M_O1->gpos && index2bra_iter.m_id == M_O2->gpos)
+   ? ((long)p4 <= Index4List.gpos ? g_hits == 0 : g_hits == g_expected)
+   : g_hits == __CPROVER_loop_entry(g_hits))
 __CPROVER_decreases((unsigned long)Index4List.size - p4)
 //@end
 
@@ -208,11 +242,12 @@ void TwoParticleGFPart_addMultiterm(struct TwoParticleGFPart *self, cplx Coeff, 
                    D_SAME(Wk, g_self->DMpart3.weights.data[i3]) && D_SAME(Wl, g_self->DMpart4.weights.data[i4]), "C02: weights (w1,w2,w3,w4) of the stripe, in order");
   __CPROVER_assert(D_SAME(beta, g_self->DMpart1.beta), "C02: beta of the density matrix");
   __CPROVER_assert(D_GE(D_ADD(D_ADD(D_ADD(Wi, Wj), Wk), Wl), 1e-16), "C02: only stripes with w1+w2+w3+w4 >= 1e-16 contribute");
+  if (o1->gpos >= 0 && x4->last_ctor_outer == x4->gouter && o3->last_ctor_outer == o3->gouter && p1 == o1->gpos && p2 == o2->gpos && g_at_ghost) { g_hits++; REACH("ghost_stripe"); }
   REACH("addMultiterm");
 }
 
-//@harness h_TPGFP_compute enforce=TwoParticleGFPart_compute replace=chaseIndices props=C02,C17 min_obl=5000 timeout=2400 reach=2 mem=28 tier=thorough
-void h_TPGFP_compute(void)
+//@harness h_TPGFP_compute_once enforce=TwoParticleGFPart_compute replace=chaseIndices props=C02,C17 min_obl=5000 timeout=3600 reach=3 mem=40 tier=thorough
+void h_TPGFP_compute_once(void)
 {
   struct TwoParticleGFPart *p;
   TwoParticleGFPart_compute(p);
